@@ -133,6 +133,15 @@ def run(ctx):
             run.instance(R2, {"fn": "update_wallet_state", "obligation": "cancel_tx (step 5) only on the tip >= cutoff edge"}, held=h)
             if not h:
                 run.finding(Finding(R2, uws, "step-5 cancel reachable without the expiry comparison", site=u.loc()))
+            # ... and on that edge the cancel always happens: no further condition between the comparison and the call
+            starts = [d for (_s, d) in expired]
+            esc = cfg.reach(u, starts=starts, cut_nodes=cb | cfg.error_return_blocks(u))
+            nxt = {b2 for b2, _t2 in cfg.find_calls(u, "core::iter::traits::iterator::Iterator::next")}
+            leaves = [b2 for b2 in esc if b2 in nxt or u.bbs[b2]["t"]["k"] == "ret"]
+            h = bool(starts) and not leaves
+            run.instance(R2, {"fn": "update_wallet_state", "obligation": "every expired outstanding entry is cancelled: from the tip >= cutoff edge the loop cannot continue or return without cancel_tx"}, held=h)
+            if not h:
+                run.finding(Finding(R2, uws, "an expired entry can be skipped: a further condition sits between the expiry comparison and cancel_tx", site=c.site_of(u, leaves[0]) if leaves else u.loc()))
             # the cancelled id is the iterated entry's id; entries come from retrieve_txs(outstanding_only = true)
             b, t = cancels[0]
             o_id = vf.origins(u, t["a"][3])
